@@ -836,6 +836,11 @@ func genHistory(g *vf.Rng, o histOpts) (calls []hcall, base string, dist map[str
 			h.add(hcall{Op: "comment", S: genText(g, g.Intn(20))})
 			// comment before SetBase does not emit; still "before the first emission"
 		}
+		if g.Intn(6) == 0 && !o.straight {
+			// so is a label: defined at the address the emitter starts from, before the base is set
+			h.add(hcall{Op: "label", S: h.newLabel()})
+			h.dist["label-before-setbase"] = true
+		}
 		h.add(hcall{Op: "setbase", Arg: b})
 	}
 	var undefined []string
@@ -855,6 +860,9 @@ func genHistory(g *vf.Rng, o histOpts) (calls []hcall, base string, dist map[str
 			n := g.Intn(30)
 			if g.Intn(10) == 0 {
 				n = 100 + g.Intn(400)
+			}
+			if g.Intn(40) == 0 {
+				n = []int{4000, 4090, 4096, 4097, 5000, 8192, 20000}[g.Intn(7)] // a licence text, a pasted table
 			}
 			h.add(hcall{Op: "comment", S: genText(g, n)})
 		case k == 10 && !o.straight:
